@@ -587,4 +587,27 @@ Proof.
           rewrite <- ?Hitems; cbn [forallb]; rewrite ?forallb_true; reflexivity.
 Qed.
 
+(* lifted to messages *)
+Fixpoint typed_obj (ds : list prop) (fvs : list fvalue) : bool :=
+  match ds, fvs with
+  | [], [] => true
+  | d :: r, v :: s => fvalue_typed d v && typed_obj r s
+  | _, _ => false
+  end.
+
+Theorem c12_object env ds : forall idx os fvs,
+  wf_env env = true ->
+  write_props_from env idx ds = Ok os ->
+  typed_obj ds fvs = true ->
+  validate_obj re_match (defined_numbers env) os fvs = rule_obj re_match env ds fvs.
+Proof.
+  induction ds as [|d r IH]; intros idx os fvs Hwf Hw Hty; cbn in Hw.
+  - inversion Hw; subst. destruct fvs; [reflexivity|discriminate].
+  - apply obind_ok in Hw as [o [Ho Hw]]. apply obind_ok in Hw as [os' [Hos Hw]].
+    inversion Hw; subst os. destruct fvs as [|v s]; [discriminate|].
+    cbn [typed_obj] in Hty. apply andb_true_iff in Hty as [Hv Hs].
+    cbn [validate_obj rule_obj].
+    rewrite (c12_main env idx d o v Hwf Ho Hv). rewrite (IH (idx + 1)%N os' s Hwf Hos Hs). reflexivity.
+Qed.
+
 End C12.
